@@ -63,15 +63,16 @@ small_vector<T, S>::small_vector(size_type n)
     data_ = local_storage_;
     size_ = data_ + n;
     capacity_ = data_ + S;
+
+    std::fill_n(begin(), n, T());
   }
   else  // n > S
   {
     data_ = static_cast<T *>(::operator new(n * sizeof(T)));
     capacity_ = size_ = data_ + n;
 
-    if (!std::is_trivially_default_constructible_v<T>)
-      for (size_type k(0); k < n; ++k)
-        new (data_ + k) T();
+    for (size_type k(0); k < n; ++k)
+      new (data_ + k) T();
   }
 
   assert(size() == n);
@@ -450,6 +451,8 @@ void small_vector<T, S>::resize(size_type n)
             new (data_ + k) T();
       }
     }
+    else if (n > size())
+      std::fill(end(), begin() + n, T());
 
     size_ = data_ + n;
     // Vector capacity isn't reduced.
